@@ -245,9 +245,11 @@ type pathCtx struct {
 	mev        evaluator // model evaluator
 	uev        evaluator // scratch evaluator for unary domain checks
 
-	known   map[int]bool       // term id -> truth value implied by the PC
-	domains map[int]*[4]uint64 // 8-bit variable id -> feasible values (over-approximation)
-	Shortcuts int
+	known      map[int]bool       // term id -> truth value implied by the PC
+	domains    map[int]*[4]uint64 // 8-bit variable id -> feasible values (over-approximation)
+	relational map[int]bool       // variable occurs in an asserted non-unary constraint: its domain is not exact
+	Shortcuts  int
+	DomForks   int
 }
 
 // Observation is a value recorded by vObserve: bytes as terms.
@@ -309,6 +311,7 @@ func (p *pathCtx) learn(t *term, v bool) {
 	if p.known == nil {
 		p.known = map[int]bool{}
 		p.domains = map[int]*[4]uint64{}
+		p.relational = map[int]bool{}
 	}
 	if _, ok := p.known[t.id]; ok {
 		return
@@ -334,8 +337,13 @@ func (p *pathCtx) learn(t *term, v bool) {
 		}
 	}
 	// unary domain filter
-	if s := p.tt.support(t); len(s) == 1 {
+	if s := p.tt.support(t); len(s) != 1 {
+		p.markRelational(t, map[int]bool{})
+	} else {
 		vt := p.tt.all[s[0]]
+		if vt.w != 8 {
+			p.relational[vt.id] = true
+		}
 		if vt.w == 8 {
 			d := p.domains[vt.id]
 			if d == nil {
@@ -355,6 +363,54 @@ func (p *pathCtx) learn(t *term, v bool) {
 			}
 		}
 	}
+}
+
+func (p *pathCtx) markRelational(t *term, seen map[int]bool) {
+	if seen[t.id] {
+		return
+	}
+	seen[t.id] = true
+	if t.op == "var" {
+		p.relational[t.id] = true
+		return
+	}
+	for _, a := range t.args {
+		p.markRelational(a, seen)
+	}
+}
+
+// exactUnary reports whether c depends on a single 8-bit variable whose
+// domain is exact (all asserted constraints on it are unary), and if so
+// which truth values c can take.
+func (p *pathCtx) exactUnary(c *term) (ok, canT, canF bool) {
+	s := p.tt.support(c)
+	if len(s) != 1 {
+		return
+	}
+	vt := p.tt.all[s[0]]
+	if vt.w != 8 || (p.relational != nil && p.relational[vt.id]) {
+		return
+	}
+	var full = [4]uint64{^uint64(0), ^uint64(0), ^uint64(0), ^uint64(0)}
+	d := &full
+	if p.domains != nil {
+		if dd := p.domains[vt.id]; dd != nil {
+			d = dd
+		}
+	}
+	for x := 0; x < 256 && !(canT && canF); x++ {
+		if d[x>>6]&(1<<uint(x&63)) == 0 {
+			continue
+		}
+		p.uev.oneVar, p.uev.oneVal = vt.id, uint64(x)
+		p.uev.next()
+		if p.uev.eval(c) != 0 {
+			canT = true
+		} else {
+			canF = true
+		}
+	}
+	return true, canT, canF
 }
 
 // decide tries to settle c from known facts and unary domains:
@@ -474,6 +530,17 @@ func (p *pathCtx) branch(c *term) bool {
 		}
 		p.modelValid = false
 		return d == 1
+	}
+	if ok, canT, canF := p.exactUnary(c); ok && canT && canF {
+		// both sides feasible by enumeration of the exact byte domain
+		alt := append(append([]int{}, p.decisions...), 0)
+		p.pending = append(p.pending, alt)
+		p.Forks++
+		p.DomForks++
+		p.record(1)
+		p.assertT(c)
+		p.modelValid = false
+		return true
 	}
 	p.ensureModel()
 	v := p.eval(c) != 0
